@@ -32,8 +32,8 @@ LEVEL_NOTE = ('Potential values come from a finite alphabet of six value classes
 ASSUMPTIONS = ['precondition: at least one joint cell has a finite potential sum (cases violating it are skipped and counted)',
                'comparison tolerance rtol 1e-7, atol 1e-9*total']
 
-VCLASSES_QUICK = ['generic', 'x1000', 'shift', 'neginf-cell']
-VCLASSES_ALL = ['generic', 'x1000', 'shift', 'neginf-cell', 'neginf-slice', 'single-live']
+VCLASSES_QUICK = ['generic', 'x1000', 'shift', 'neginf-cell', 'compensated']
+VCLASSES_ALL = ['generic', 'x1000', 'shift', 'neginf-cell', 'neginf-slice', 'single-live', 'compensated']
 TOTALS = [1.0, 0.5, 100.0]
 
 
@@ -90,6 +90,8 @@ def input_potentials(attrs, sizes, cliques, vclass, rngseed):
         return [(c, a * 1000.0) for c, a in base], None
     if vclass == 'shift':
         return [(c, a + (1e4 if i % 2 == 0 else -1e4)) for i, (c, a) in enumerate(base)], base
+    if vclass == 'compensated':
+        return S.compensate(attrs, sizes, base), base   # must equal the distribution of the uncompensated potentials
     out = []
     for i, (c, a) in enumerate(base):
         a = a.copy()
